@@ -17,7 +17,12 @@ for d in sorted(glob.glob(os.path.join(V, 'seeded', '*'))):
         ob = [l.strip().replace('failed obligation: ', '') for l in lines if 'failed obligation' in l]
         if r['exit'] == 1:
             how = 'replayed on the real code' if any('DISAGREE' in l for l in lines) else 'no-failing-input-found'
-            res.append('%s: **VIOLATION** at `%s` (%s)' % (p, (ob[0] if ob else '?').split(':')[-1][:60], how))
+            names = []
+            for o in ob:
+                n = o.split(':')[-1][:50]
+                if n not in names:
+                    names.append(n)
+            res.append('%s: **VIOLATION** at %s (%s)' % (p, ', '.join('`%s`' % n for n in names[:4]) or 'the bounded stand-in (the deductive obligation of the restructured function was undecided)', how))
         elif r['exit'] == 2:
             res.append('%s: undecided (exit 2)' % p)
         else:
